@@ -30,6 +30,10 @@ pub enum Sched {
         /// the input iterator takes this many microseconds per item (slow source)
         #[serde(default)]
         upstream_us: u16,
+        /// after this many items a second threaded pipe is built and read to its end in the same
+        /// process, then the first one is read on (0 = no second pipe)
+        #[serde(default)]
+        second_pipe_after: usize,
     },
 }
 
@@ -185,7 +189,8 @@ pub fn run_controlled(t: usize, n: usize, sched: &Sched) -> Result<RunInfo, Stri
     res.map(|_| info)
 }
 
-fn run_real(t: usize, n: usize, delays: &[u16], chaos: u64, slow: Option<(usize, u16)>, consumer_us: u16, upstream_us: u16) -> Result<(), String> {
+#[allow(clippy::too_many_arguments)]
+fn run_real(t: usize, n: usize, delays: &[u16], chaos: u64, slow: Option<(usize, u16)>, consumer_us: u16, upstream_us: u16, second_pipe_after: usize) -> Result<(), String> {
     let calls: Arc<Vec<AtomicUsize>> = Arc::new((0..n).map(|_| AtomicUsize::new(0)).collect());
     let calls2 = calls.clone();
     let delays: Vec<u16> = if delays.is_empty() { vec![0] } else { delays.to_vec() };
@@ -218,6 +223,16 @@ fn run_real(t: usize, n: usize, delays: &[u16], chaos: u64, slow: Option<(usize,
             std::thread::sleep(Duration::from_micros(consumer_us as u64));
         }
         got.push(it);
+        if second_pipe_after > 0 && got.len() == second_pipe_after {
+            // two pipes alive at the same time: the second one is built and drained while the
+            // first is half read
+            let id: text_utils::data::Pipeline<usize, usize> = Arc::new(|x| x + 1);
+            let other: Vec<usize> = (0..7usize).pipe(id, t.max(1) as u8).collect();
+            install_panic_hook();
+            if other != (1..8usize).collect::<Vec<_>>() {
+                return Err(format!("a second pipe built while the first was half read gave {other:?}"));
+            }
+        }
         if got.len() > n {
             break;
         }
@@ -288,10 +303,10 @@ pub fn enumerate(t: usize, n: usize, bound: usize, cap: usize, stats: &mut Stats
 impl Prop for C05 {
     type Case = Case;
     const ID: &'static str = "C05";
-    const RULE: &'static str = "T in 0..=4 (occasionally up to 8; real threads up to 16) worker threads x n in 0..=12 (occasionally up to 40) inputs x a generated schedule: (a) a vector of <= 400 choices over the enabled actors (consumer, workers parked at the hook points ticket/compute/turn-spin/send/advance/exit), completed non-preemptively, (b) a PCT schedule (random priorities + <= 3 priority change points), (c) thorough tier: every schedule with <= 2 preemptions for T <= 3, n <= 4 (stateless re-execution, reported as `enumerated`), (d) real threads with a chaos controller and generated per-item delays, optionally a slow consumer (<= 0.4 ms per item: back-pressure) and/or a slow input iterator (<= 0.2 ms per item) (n <= 200), or 2000-6000 items without delays (contention on the ticket lock), or one item that takes 1.3 / 2.7 s while all others are instant. The serialising controller runs exactly one actor at a time. Oracle after every step: the received sequence is a prefix of f(x0), f(x1), ...; no input processed twice; at the end every input processed exactly once, next() returns None, all workers reached their exit point; no deadlock. Non-trivial: the schedule preempts a worker between `before send` and `turn advanced`, or two workers are past compute at the same time. Distinct = distinct serialised case.";
+    const RULE: &'static str = "T in 0..=4 (occasionally up to 8; real threads up to 16) worker threads x n in 0..=12 (occasionally up to 40) inputs x a generated schedule: (a) a vector of <= 400 choices over the enabled actors (consumer, workers parked at the hook points ticket/compute/turn-spin/send/advance/exit), completed non-preemptively, (b) a PCT schedule (random priorities + <= 3 priority change points), (c) thorough tier: every schedule with <= 2 preemptions for T <= 3, n <= 4 (stateless re-execution, reported as `enumerated`), (d) real threads with a chaos controller and generated per-item delays, optionally a slow consumer (<= 0.4 ms per item: back-pressure) and/or a slow input iterator (<= 0.2 ms per item), in one run of four with a second threaded pipe built and drained while the first is half read (n <= 200), or 2000-6000 items without delays (contention on the ticket lock), or one item that takes 1.3 / 2.7 s while all others are instant. The serialising controller runs exactly one actor at a time. Oracle after every step: the received sequence is a prefix of f(x0), f(x1), ...; no input processed twice; at the end every input processed exactly once, next() returns None, all workers reached their exit point; no deadlock. Non-trivial: the schedule preempts a worker between `before send` and `turn advanced`, or two workers are past compute at the same time. Distinct = distinct serialised case.";
     const CLAIMS_TERMINATION: bool = true;
     const HANG_SECS: u64 = 30;
-    const ESSENTIAL: &'static [&'static str] = &["preempt_in_send_window", "two_workers_past_compute", "out_of_order_compute", "channel_full", "T=0", "n<T", "pct", "choices", "real", "slow_item", "slow_consumer", "slow_source"];
+    const ESSENTIAL: &'static [&'static str] = &["preempt_in_send_window", "two_workers_past_compute", "out_of_order_compute", "channel_full", "T=0", "n<T", "pct", "choices", "real", "slow_item", "slow_consumer", "slow_source", "two_live_pipes"];
 
     fn budget(tier: Tier) -> Budget {
         match tier {
@@ -313,10 +328,10 @@ impl Prop for C05 {
         let real = (prop_oneof![8 => 0usize..=4, 1 => 5usize..=16], prop_oneof![3 => 0usize..=200, 1 => 2000usize..=6000], proptest::collection::vec(prop_oneof![3 => Just(0u16), 2 => 0u16..300], 1..=8), any::<u64>(),
             prop_oneof![3 => Just((0u16, 0u16)), 1 => (0u16..400, Just(0u16)), 1 => (Just(0u16), 0u16..200), 1 => (0u16..200, 0u16..200)])
             .prop_map(|(t, n, delays, chaos, speeds)| if n > 200 { (t, n, vec![0u16], chaos, (0, 0)) } else { (t, n, delays, chaos, speeds) })
-            .prop_map(|(t, n, delays, chaos, (consumer_us, upstream_us))| Case { t, n, sched: Sched::Real { delays, chaos, slow: None, consumer_us, upstream_us } });
+            .prop_map(|(t, n, delays, chaos, (consumer_us, upstream_us))| Case { t, n, sched: Sched::Real { delays, chaos, slow: None, consumer_us, upstream_us, second_pipe_after: if chaos % 4 == 0 && n >= 2 { 1 + (chaos as usize / 4) % (n - 1) } else { 0 } } });
         // one very slow item: a consumer-side or worker-side timeout must not end or reorder the stream
         let slow = (1usize..=4, 2usize..=16, any::<u16>(), proptest::sample::select(vec![1300u16, 2700]), any::<u64>())
-            .prop_map(|(t, n, i, ms, chaos)| Case { t, n, sched: Sched::Real { delays: vec![0], chaos, slow: Some((idx16(i, n), ms)), consumer_us: 0, upstream_us: 0 } });
+            .prop_map(|(t, n, i, ms, chaos)| Case { t, n, sched: Sched::Real { delays: vec![0], chaos, slow: Some((idx16(i, n), ms)), consumer_us: 0, upstream_us: 0, second_pipe_after: 0 } });
         prop_oneof![240 => controlled, 20 => real, 1 => slow].boxed()
     }
 
@@ -333,13 +348,14 @@ impl Prop for C05 {
         out.label_if(c.t == 0, "T=0");
         out.label_if(c.n < c.t, "n<T");
         match &c.sched {
-            Sched::Real { delays, chaos, slow, consumer_us, upstream_us } => {
+            Sched::Real { delays, chaos, slow, consumer_us, upstream_us, second_pipe_after } => {
                 out.label("real");
                 out.label_if(slow.is_some(), "slow_item");
                 out.label_if(*consumer_us > 0, "slow_consumer");
                 out.label_if(*upstream_us > 0, "slow_source");
+                out.label_if(*second_pipe_after > 0, "two_live_pipes");
                 out.nontrivial = c.t >= 2 && c.n >= 2 * c.t && delays.iter().any(|d| *d > 0);
-                if let Err(e) = run_real(c.t, c.n, delays, *chaos, *slow, *consumer_us, *upstream_us) {
+                if let Err(e) = run_real(c.t, c.n, delays, *chaos, *slow, *consumer_us, *upstream_us, *second_pipe_after) {
                     out.fail(e);
                 }
             }
